@@ -1,6 +1,6 @@
 (* PathModel.v -- property C15, the WHOLE round trip node -> path -> node / created nodes (slice pathmodel).
 
-   Transcribed C code (as coded, string-typed keys and leaf-lists, absolute paths, options 0):
+   Transcribed C code (as coded, typed values through [canon], absolute paths, options 0):
      printer     src/tree_data.c        lyd_path(LYD_PATH_STD), lyd_path_list_predicate(), lyd_path_leaflist_predicate(),
                                         lyd_path_position_predicate(); src/tree_data_common.c lyd_list_pos()
      tokenizer   src/xpath.c            lyxp_expr_parse(.., reparse = 0): the tokens ly_path_parse() can consume
@@ -19,9 +19,11 @@
 
    Not modelled (the functions answer E_UNSUP, the generator never produces such input): relative paths, XPath
    variables in key predicates, non-ASCII bytes outside literals (XML name characters beyond ASCII), opaque nodes,
-   LYD_DEFAULT flags, other types than string for keys / leaf-lists (no canonicalisation), the sibling ORDER of nodes
+   LYD_DEFAULT flags beyond empty non-presence containers, other types than string / int8..uint64 / boolean /
+   enumeration (and no range, length, pattern restrictions) for keys, leaf-lists and leaves, the sibling ORDER of nodes
    created in a non-empty tree (lyd_insert_node; only the created chain and its attach point are modelled). *)
 From LY Require Import Base Utf8 PathQuote.
+From LY Require IntLex.
 Local Open Scope N_scope.
 
 (* LY_ERR numbers used as error classes *)
@@ -36,11 +38,53 @@ Definition E_INT : N := 102.       (* a state the preceding checks exclude *)
 (* ------------------------------------------------------------------------------------------- *)
 (* schema and data                                                                               *)
 (* ------------------------------------------------------------------------------------------- *)
+(* ---- typed values: the built-in types of keys, leaf-lists and leaves that are modelled ----
+   string (no restrictions), the eight integer types (model of lyplg_type_store_int / _uint: coq/IntLex.v), boolean,
+   enumeration. [canon ty v] = the canonical string lyd_value_store() keeps for the text v, None when v is rejected:
+     string       string_check_chars(): valid UTF-8, kept as it is
+     intN/uintN   white space around, optional sign, digits, within the bounds; canonical = decimal without plus sign and
+                  leading zeros (IntLex.int_store / int_canon)
+     boolean      exactly true or false (lyplg_type_store_boolean: no trimming)
+     enumeration  exactly one of the names (lyplg_type_store_enum) *)
+Inductive vtype := TString | TInt (t : IntLex.ity) | TBool | TEnum (names : list bytes).
+
+Definition canon (ty : vtype) (v : bytes) : option bytes :=
+  match ty with
+  | TString => if all_checkutf8 v then Some v else None
+  | TInt t => match IntLex.int_store t [] v with
+              | Ok z => Some (IntLex.int_canon z)
+              | Err _ => None
+              end
+  | TBool => if beq_bytes v [116; 114; 117; 101] || beq_bytes v [102; 97; 108; 115; 101] then Some v else None
+  | TEnum names => if existsb (beq_bytes v) names then Some v else None
+  end.
+
+Definition ity_eqb (a b : IntLex.ity) : bool :=
+  match a, b with
+  | IntLex.I8, IntLex.I8 | IntLex.I16, IntLex.I16 | IntLex.I32, IntLex.I32 | IntLex.I64, IntLex.I64
+  | IntLex.U8, IntLex.U8 | IntLex.U16, IntLex.U16 | IntLex.U32, IntLex.U32 | IntLex.U64, IntLex.U64 => true
+  | _, _ => false
+  end.
+Fixpoint names_eqb (a b : list bytes) : bool :=
+  match a, b with
+  | [], [] => true
+  | x :: a', y :: b' => beq_bytes x y && names_eqb a' b'
+  | _, _ => false
+  end.
+Definition vtype_eqb (a b : vtype) : bool :=
+  match a, b with
+  | TString, TString => true
+  | TInt x, TInt y => ity_eqb x y
+  | TBool, TBool => true
+  | TEnum x, TEnum y => names_eqb x y
+  | _, _ => false
+  end.
+
 Inductive pkind :=
 | KCont (presence : bool)            (* container (presence: LYS_PRESENCE); rpc, action, notification count as presence = true *)
 | KList (keyless cfgw : bool)        (* LYS_LIST with LYS_KEYLESS / LYS_CONFIG_W *)
-| KLeafList (cfgw : bool)            (* LYS_LEAFLIST with LYS_CONFIG_W *)
-| KLeaf (iskey : bool)               (* LYS_LEAF with LYS_KEY *)
+| KLeafList (cfgw : bool) (ty : vtype)   (* LYS_LEAFLIST with LYS_CONFIG_W, its type *)
+| KLeaf (iskey : bool) (ty : vtype)       (* LYS_LEAF with LYS_KEY, its type *)
 | KAny.                              (* anydata / anyxml *)
 
 Inductive snode := SN (m n : bytes) (k : pkind) (ch : list snode).
@@ -60,18 +104,20 @@ Definition kind_eqb (a b : pkind) : bool :=
   match a, b with
   | KCont a1, KCont b1 => Bool.eqb a1 b1
   | KList a1 a2, KList b1 b2 => Bool.eqb a1 b1 && Bool.eqb a2 b2
-  | KLeafList a1, KLeafList b1 => Bool.eqb a1 b1
-  | KLeaf a1, KLeaf b1 => Bool.eqb a1 b1
+  | KLeafList a1 t1, KLeafList b1 t2 => Bool.eqb a1 b1 && vtype_eqb t1 t2
+  | KLeaf a1 t1, KLeaf b1 t2 => Bool.eqb a1 b1 && vtype_eqb t1 t2
   | KAny, KAny => true
   | _, _ => false
   end.
 
-Definition is_key_kind (k : pkind) : bool := match k with KLeaf true => true | _ => false end.
+Definition is_key_kind (k : pkind) : bool := match k with KLeaf true _ => true | _ => false end.
+(* the type of a term node (string for the kinds that have none) *)
+Definition kind_ty (k : pkind) : vtype := match k with KLeaf _ t | KLeafList _ t => t | _ => TString end.
 Definition is_list_kind (k : pkind) : bool := match k with KList _ _ => true | _ => false end.
-Definition is_leaflist_kind (k : pkind) : bool := match k with KLeafList _ => true | _ => false end.
+Definition is_leaflist_kind (k : pkind) : bool := match k with KLeafList _ _ => true | _ => false end.
 (* lysc_is_dup_inst_list(): key-less list or leaf-list without LYS_CONFIG_W *)
 Definition dup_inst (k : pkind) : bool :=
-  match k with KList true _ => true | KLeafList false => true | _ => false end.
+  match k with KList true _ => true | KLeafList false _ => true | _ => false end.
 
 (* child->schema == s, for a schema node s given by (module, name) *)
 Definition same_sn (m n : bytes) (x : dnode) : bool := beq_bytes m (d_m x) && beq_bytes n (d_n x).
@@ -116,8 +162,8 @@ Definition node_pred (before : list dnode) (x : dnode) : bytes :=
   match d_k x with
   | KList true _ => pos_pred before x
   | KList false _ => keys_pred x
-  | KLeafList true => leaflist_pred (d_v x)
-  | KLeafList false => pos_pred before x
+  | KLeafList true _ => leaflist_pred (d_v x)
+  | KLeafList false _ => pos_pred before x
   | _ => []
   end.
 
@@ -415,9 +461,12 @@ Definition parse_path (s : bytes) : res (list pseg) :=
 (* ------------------------------------------------------------------------------------------- *)
 (* _ly_path_compile() / ly_path_compile_predicate()                                              *)
 (* ------------------------------------------------------------------------------------------- *)
+(* one key predicate after compilation: module, name, (node kind of the key leaf, stored = canonical value) *)
+Definition kentry : Type := bytes * bytes * (pkind * bytes).
+
 Inductive cpred :=
 | CNone
-| CKeys (l : list (bytes * bytes * bytes))       (* LY_PATH_PREDTYPE_LIST: key module, key name, stored value *)
+| CKeys (l : list kentry)                        (* LY_PATH_PREDTYPE_LIST: the key (module, name, kind) and the stored value *)
 | CDot (v : bytes)                               (* LY_PATH_PREDTYPE_LEAFLIST *)
 | CPos (p : N).                                  (* LY_PATH_PREDTYPE_POSITION *)
 
@@ -440,12 +489,11 @@ Fixpoint schema_keys (ch : list snode) : list (bytes * bytes) :=
   | [] => []
   end.
 
-(* lyd_value_store() of a string type without restrictions: string_check_chars() *)
-Definition str_ok (v : bytes) : bool := all_checkutf8 v.
+(* lyd_value_store(): [canon] of the type of the node; the path keeps the canonical value *)
 
 (* the do-while of the NameTest branch: the key is looked up in the module the prefix names, else in the module of
    the list (LY_VALUE_JSON: inherited); it must be a leaf with LYS_KEY; its value must be storable *)
-Fixpoint compile_keys (s : snode) (l : list (option bytes * bytes * bytes)) : res (list (bytes * bytes * bytes)) :=
+Fixpoint compile_keys (s : snode) (l : list (option bytes * bytes * bytes)) : res (list kentry) :=
   match l with
   | [] => Ok []
   | (p, n, v) :: l' =>
@@ -453,10 +501,13 @@ Fixpoint compile_keys (s : snode) (l : list (option bytes * bytes * bytes)) : re
       match find_child (s_ch s) m n with
       | Some c =>
           if negb (is_key_kind (s_k c)) then Err E_VALID
-          else if negb (str_ok v) then Err E_VALID
-          else match compile_keys s l' with
-               | Ok r => Ok ((s_m c, s_n c, v) :: r)
-               | Err e => Err e
+          else match canon (kind_ty (s_k c)) v with
+               | None => Err E_VALID
+               | Some cv =>
+                   match compile_keys s l' with
+                   | Ok r => Ok ((s_m c, s_n c, (s_k c, cv)) :: r)
+                   | Err e => Err e
+                   end
                end
       | None => Err E_VALID
       end
@@ -476,12 +527,12 @@ Definition compile_pred (s : snode) (pr : ppred) : res cpred :=
       end
   | PDot v =>
       match s_k s with
-      | KLeafList _ => if str_ok v then Ok (CDot v) else Err E_VALID
+      | KLeafList _ ty => match canon ty v with Some cv => Ok (CDot cv) | None => Err E_VALID end
       | _ => Err E_VALID
       end
   | PPos ip =>
       match s_k s with
-      | KList _ false | KLeafList false => Ok (CPos (c_strtoull ip))
+      | KList _ false | KLeafList false _ => Ok (CPos (c_strtoull ip))
       | _ => Err E_VALID               (* neither list nor leaf-list, or LYS_CONFIG_W *)
       end
   end.
@@ -541,18 +592,18 @@ Fixpoint pos_walk (m n : bytes) (want pos : N) (l : list dnode) (idx : nat) : op
   end.
 
 (* lyd_create_list(): one key node per predicate, each put in its place by lyd_insert_node(): the keys in schema order *)
-Definition key_is (k : bytes * bytes) (e : bytes * bytes * bytes) : bool :=
+Definition key_is (k : bytes * bytes) (e : kentry) : bool :=
   beq_bytes (fst k) (fst (fst e)) && beq_bytes (snd k) (snd (fst e)).
-Definition target_keys (keys : list (bytes * bytes)) (l : list (bytes * bytes * bytes)) : list (bytes * bytes * bytes) :=
+Definition target_keys (keys : list (bytes * bytes)) (l : list kentry) : list kentry :=
   flat_map (fun k => filter (key_is k) l) keys.
 
 (* lyd_compare_single(.., 0) of two instances of a list with keys: the leading children pairwise, schema and value *)
-Fixpoint keys_match (tk : list (bytes * bytes * bytes)) (ch : list dnode) : bool :=
+Fixpoint keys_match (tk : list kentry) (ch : list dnode) : bool :=
   match tk with
   | [] => true
   | (km, kn, kv) :: tk' =>
       match ch with
-      | c :: ch' => same_sn km kn c && beq_bytes kv (d_v c) && keys_match tk' ch'
+      | c :: ch' => same_sn km kn c && beq_bytes (snd kv) (d_v c) && keys_match tk' ch'
       | [] => false
       end
   end.
@@ -631,15 +682,17 @@ Fixpoint check_find (value : bytes) (l : list cseg) (u : nat) : res (list cseg *
       else if is_leaflist_kind (cs_k cs) then
         match cs_pred cs with
         | CDot _ => go cs None
-        | _ => if str_ok value then go (mk_cseg (cs_m cs) (cs_n cs) (cs_k cs) (cs_keys cs) (CDot value)) None
-               else Err E_VALID
+        | _ => match canon (kind_ty (cs_k cs)) value with
+               | Some cv => go (mk_cseg (cs_m cs) (cs_n cs) (cs_k cs) (cs_keys cs) (CDot cv)) None
+               | None => Err E_VALID
+               end
         end
       else go cs None
   end.
 
 (* the key children lyd_create_list() gives a new list instance *)
-Definition key_nodes (tk : list (bytes * bytes * bytes)) : list dnode :=
-  map (fun e => DN (fst (fst e)) (snd (fst e)) (KLeaf true) (snd e) []) tk.
+Definition key_nodes (tk : list kentry) : list dnode :=
+  map (fun e : kentry => DN (fst (fst e)) (snd (fst e)) (fst (snd e)) (snd (snd e)) []) tk.
 
 (* the for loop that creates the missing nodes, each the only new child of the one before ([] or one node).
    A key leaf is not created: it is found among the keys of the list instance created just before *)
@@ -659,20 +712,21 @@ Fixpoint mk_chain (value : bytes) (l : list cseg) : res (list dnode) :=
               | _ => Err E_INT             (* excluded by check_find *)
               end
           | KCont _ => Ok [DN m n k [] sub]
-          | KLeafList _ =>
+          | KLeafList _ ty =>
               match cs_pred cs with
               | CDot v => Ok [DN m n k v []]
-              | _ => if str_ok value then Ok [DN m n k value []] else Err E_VALID
+              | _ => match canon ty value with Some cv => Ok [DN m n k cv []] | None => Err E_VALID end
               end
-          | KLeaf true => Ok []
-          | KLeaf false => if str_ok value then Ok [DN m n k value []] else Err E_VALID
+          | KLeaf true _ => Ok []
+          | KLeaf false ty => match canon ty value with Some cv => Ok [DN m n k cv []] | None => Err E_VALID end
           | KAny =>
               (* lyd_create_any(anydata, value, LYD_ANYDATA_STRING): NULL (the empty value) is an empty tree; text that
-                 looks like XML, JSON or LYB is parsed (not modelled); any other string is LOGINT *)
+                 looks like XML, JSON or LYB is parsed (not modelled); any other string is an invalid value (LY_EVALID since
+                 /repo 8b61a43; LOGINT before) *)
               match value with
               | [] => Ok [DN m n k [] []]
               | 60 :: _ | 123 :: _ | 108 :: 121 :: 98 :: _ => Err E_UNSUP
-              | _ => Err E_LYINT
+              | _ => Err E_VALID
               end
           end
       end
@@ -812,7 +866,7 @@ Definition same_ident (x y : dnode) : bool :=
   same_schema x y &&
   match d_k x with
   | KList false _ => beq_vals (key_vals x) (key_vals y)
-  | KLeafList true => beq_bytes (d_v x) (d_v y)
+  | KLeafList true _ => beq_bytes (d_v x) (d_v y)
   | _ => true
   end.
 
@@ -836,8 +890,8 @@ Fixpoint keys_agree (l : list dnode) (ks : list (bytes * bytes)) : bool :=
   | _, _ => false
   end.
 
-(* the data node x is an instance of a child of [sc]: same node type and flags; inner nodes have no value, terms
-   a valid string and no children; a list instance starts with its keys; the children are well-formed siblings,
+(* the data node x is an instance of a child of [sc]: same node type, flags and value type; inner nodes have no value,
+   terms the canonical value of their type and no children; a list instance starts with its keys; the children are well-formed siblings,
    fewer than 2^31 of them *)
 Fixpoint dwf_node (sc : list snode) (x : dnode) {struct x} : bool :=
   match x with
@@ -848,7 +902,7 @@ Fixpoint dwf_node (sc : list snode) (x : dnode) {struct x} : bool :=
           kind_eqb (s_k s) k &&
           match k with
           | KCont _ | KList _ _ | KAny => match v with [] => true | _ => false end
-          | _ => str_ok v
+          | _ => match canon (kind_ty k) v with Some cv => beq_bytes cv v | None => false end
           end &&
           match k with
           | KList false _ =>
@@ -872,7 +926,7 @@ Fixpoint quotes_ok_node (x : dnode) {struct x} : bool :=
   match x with
   | DN m n k v ch =>
       match k with
-      | KLeaf true | KLeafList true => one_quote v
+      | KLeaf true _ | KLeafList true _ => one_quote v
       | _ => true
       end && forallb quotes_ok_node ch
   end.
